@@ -49,6 +49,7 @@ structure AnalyzerSpec where
   initPresent : List (Nat × Guard) := []  -- slots that are not missing/None after `__init__`
   initDerived : List Nat := []            -- slots `__init__` computes from the input
   inherited : List Nat := []              -- getters defined in a base class (not in the own class dict)
+  refreshed : List Nat := []              -- slots an overriding `set_input` recomputes from the new input
   deriving Repr
 
 /-- effects of one getter under a given configuration -/
@@ -81,7 +82,10 @@ def AnalyzerSpec.present (sp : AnalyzerSpec) (cfg : List Nat) : List Nat := pick
 def AnalyzerSpec.walked (sp : AnalyzerSpec) (walksMRO : Bool) : List Nat :=
   (List.range sp.getters.length).filter fun g => walksMRO || !sp.inherited.contains g
 
-def eff (spec : Spec) (g : Nat) : Eff := spec.getD g {}
+/-- a name that is no one-time attribute of the class: reads nothing -/
+def noEff : Eff := { usesInput := false }
+
+def eff (spec : Spec) (g : Nat) : Eff := spec.getD g noEff
 
 /-! ### the machine -/
 
@@ -166,6 +170,17 @@ def reset (walked : List Nat) (s : St V I) : St V I :=
 def setInput (walked : List Nat) (x : I) (s : St V I) : St V I :=
   { reset walked s with input := x }
 
+/-- reset, then the user assigns new values to the attributes `changed`, then the input is replaced
+    (a `set_input` override recomputes the slots `refreshed` from the new input, as `__init__` does).
+    `Epochs.__getitem__` is the instance `changed = data slots`, same input. -/
+def retarget (sem : Sem V I) (walked refreshed changed : List Nat) (new : Nat → Option V) (x : I)
+    (s : St V I) : St V I :=
+  { cache := fun k => if walked.contains k then none else s.cache k
+    count := fun k => if walked.contains k then 0 else s.count k
+    input := x
+    params := fun p => if refreshed.contains p then some (sem.D p x)
+                       else if changed.contains p then new p else s.params p }
+
 /-- plain attribute assignment by the user (`a.alpha = 0.1`) -/
 def setParams (changed : List Nat) (new : Nat → Option V) (s : St V I) : St V I :=
   { s with params := fun p => if changed.contains p then new p else s.params p }
@@ -201,8 +216,21 @@ def noInterferenceB (spec : Spec) (present : List Nat) : Bool :=
 def walkOKB (spec : Spec) (walked : List Nat) : Bool :=
   allG spec fun g e => walked.contains g || (e.deps.isEmpty && e.reads.isEmpty && !e.usesInput)
 
-def retargetOKB (spec : Spec) (present walked : List Nat) : Bool :=
-  sortedB spec && noClobberB spec && noWriteB spec present && walkOKB spec walked
+/-- every slot that `__init__` derives from the input and that some getter reads is recomputed on
+    `set_input` -/
+def derivedOKB (spec : Spec) (derived refreshed : List Nat) : Bool :=
+  allG spec fun _ e => e.reads.all fun p => !derived.contains p || refreshed.contains p
+
+def retargetOKB (spec : Spec) (present walked derived refreshed : List Nat) : Bool :=
+  sortedB spec && noClobberB spec && noWriteB spec present && walkOKB spec walked &&
+  derivedOKB spec derived refreshed && refreshed.all (derived.contains ·)
+
+/-- a user subclass that adds nothing: every one-time attribute is inherited -/
+def AnalyzerSpec.subclass (sp : AnalyzerSpec) : AnalyzerSpec :=
+  { sp with inherited := List.range sp.getters.length }
+
+def AnalyzerSpec.retargetOK (sp : AnalyzerSpec) (walksMRO : Bool) (cfg : List Nat) : Bool :=
+  retargetOKB (sp.resolve cfg) (sp.present cfg) (sp.walked walksMRO) sp.initDerived sp.refreshed
 
 /-- all configurations (subsets of the flags) -/
 def allCfgs : Nat → List (List Nat)
